@@ -72,7 +72,7 @@ TARGETS = [
     ("chipfiring/CFConfig.py", "CFConfigMoves", "__init__"), ("chipfiring/CFConfig.py", "CFConfigMoves", "get_degree_at"), ("chipfiring/CFConfig.py", "CFConfigMoves", "is_non_negative"), ("chipfiring/CFConfig.py", "CFConfigMoves", "get_degree_sum"), ("chipfiring/CFConfig.py", "CFConfigMoves", "get_q_underlying_degree"),
     ("chipfiring/CFConfig.py", "CFConfigMoves", "_is_comparable_to"), ("chipfiring/CFConfig.py", "CFConfigMoves", "__eq__"), ("chipfiring/CFConfig.py", "CFConfigMoves", "__ge__"), ("chipfiring/CFConfig.py", "CFConfigMoves", "__le__"),
     ("chipfiring/CFConfig.py", "CFConfigMoves", "set_fire"), ("chipfiring/CFConfig.py", "CFConfigMoves", "lending_move"), ("chipfiring/CFConfig.py", "CFConfigMoves", "borrowing_move"),
-    ("chipfiring/CFConfig.py", "CFConfigMoves", "is_legal_set_firing"), ("chipfiring/CFConfig.py", "CFConfigMoves", "__lt__"), ("chipfiring/CFConfig.py", "CFConfigMoves", "__gt__"),
+    ("chipfiring/CFConfig.py", "CFConfigMoves", "is_legal_set_firing"), ("chipfiring/CFConfig.py", "CFConfigMoves", "is_superstable"), ("chipfiring/CFConfig.py", "CFConfigMoves", "__lt__"), ("chipfiring/CFConfig.py", "CFConfigMoves", "__gt__"),
 ]
 class Unsupported(Exception): pass
 def bad(node, why=""): raise Unsupported("%s at line %s: %s" % (type(node).__name__, getattr(node, "lineno", "?"), why))
@@ -268,7 +268,7 @@ class Fn:
         if isinstance(e, ast.SetComp) and len(e.generators) == 1 and not e.generators[0].ifs and isinstance(e.generators[0].target, ast.Name):
             # {Vertex(name) for name in S}: the same set of keys
             src, ts = self.expr(e.generators[0].iter); v = e.generators[0].target.id
-            if ts != "set" or ast.unparse(e.elt) not in ("Vertex(%s)" % v, v): bad(e, "set comprehension")
+            if ts != "set" or ast.unparse(e.elt) not in ("Vertex(%s)" % v, v, "%s.name" % v): bad(e, "set comprehension")
             return src, "set"
         if isinstance(e, ast.Call) and isinstance(e.func, ast.Attribute) and ast.unparse(e.func.value) == "self.divisor" and self.cls == "CFConfigMoves":
             # a read-only CFDivisor method called on the wrapped divisor; hoisted like a dictionary read (it may raise)
@@ -419,6 +419,14 @@ class Fn:
         if isinstance(it, ast.Name) and self.env.get(it.id) == "pairs" and isinstance(target, ast.Tuple) and len(target.elts) == 2 and all(isinstance(x, ast.Name) for x in target.elts):
             ns = [x.id for x in target.elts]
             return it.id, "let '(%s, %s) := kv_ in" % tuple(ns), {ns[0]: "key", ns[1]: "Z"}, "kv_"
+        if isinstance(it, ast.Call) and ast.unparse(it.func) == "range" and len(it.args) == 2 and ast.unparse(it.args[0]) == "1" and isinstance(target, ast.Name) \
+                and isinstance(it.args[1], ast.BinOp) and isinstance(it.args[1].op, ast.Add) and ast.unparse(it.args[1].right) == "1" and isinstance(it.args[1].left, ast.Call) \
+                and ast.unparse(it.args[1].left.func) == "len" and len(it.args[1].left.args) == 1 and isinstance(it.args[1].left.args[0], ast.Name) and self.env.get(it.args[1].left.args[0].id) == "set":
+            return "(seq 1 (length %s))" % it.args[1].left.args[0].id, "", {target.id: "natidx"}, target.id      # the sizes 1 .. |X|
+        if isinstance(it, ast.Call) and ast.unparse(it.func) == "itertools.combinations" and len(it.args) == 2 and isinstance(target, ast.Name) and isinstance(it.args[0], ast.Name) \
+                and self.env.get(it.args[0].id) == "set" and isinstance(it.args[1], ast.Name) and self.env.get(it.args[1].id) == "natidx":
+            # itertools.combinations of a SET: the subsequences of the order in which the set is iterated
+            self.uses_order = True; return "(combinations (set_order %s) %s)" % (it.args[0].id, it.args[1].id), "", {target.id: "set"}, target.id
         d, td = self.expr(it)
         if not isinstance(target, ast.Name): bad(it, "loop target")
         if td in ("dictZ", "dictD"): return "(d_keys %s)" % d, "", {target.id: "key"}, target.id
